@@ -2,6 +2,8 @@
 
 package reader
 
+import "github.com/milvus-io/milvus/pkg/mq/msgstream"
+
 // VerifYield, when set by a simulation harness, is called at a few lock-free
 // points of the pack pipeline and of the drop barrier so that a scheduler can
 // order concurrent goroutines deterministically. It is never set in production
@@ -23,4 +25,17 @@ func verifNote(point string, channel string, a uint64, ref any) {
 	if f := VerifNote; f != nil {
 		f(point, channel, a, ref)
 	}
+}
+
+// verifBarrierKey identifies the object a barrier signal is about (the partition
+// id of a drop-partition message, else the collection id), so that a harness
+// can tell the signals of different barriers apart.
+func verifBarrierKey(m msgstream.TsMsg) int64 {
+	switch x := m.(type) {
+	case *msgstream.DropPartitionMsg:
+		return x.PartitionID
+	case *msgstream.DropCollectionMsg:
+		return x.CollectionID
+	}
+	return -1
 }
